@@ -17,7 +17,7 @@ const (
 	MachineIDBits      = 14
 	TimeUnitBits       = 37
 	MaxSeqID           = (1 << SequenceBits) - 1
-	MachineIDMask      = 0x3FFFF
+	MachineIDMask      = 0x3FFF
 	TimestampShift     = MachineIDBits + SequenceBits
 	MaxTimeUnits       = (1 << TimeUnitBits) - 1
 	BackwardsMaskShift = TimeUnitBits + MachineIDBits + SequenceBits
